@@ -34,6 +34,9 @@ type RecReplayer struct {
 	ReplayFault map[int]string
 	// OnReplay, if set, is called inside Replay before delegating (virtual latency etc.).
 	OnReplay func(sub string)
+	// ErrKind / WrapTargets select the flavour of injected errors (see NewInjected).
+	ErrKind     string
+	WrapTargets map[string]error
 	// PutLatency / ReplayLatency: time slept inside the call (virtual inside a bubble), so that
 	// other operations can land while Joe is inside the replayer.
 	PutLatency    time.Duration
@@ -79,7 +82,7 @@ func (r *RecReplayer) Put(m *sse.Message, topics []string) (*sse.Message, error)
 		var nilMap map[string]int
 		nilMap["x"] = 1 // runtime error: a panic that carries an error value
 	case "err":
-		err = &InjectedError{Where: "put", N: n}
+		err = NewInjected("put", n, r.ErrKind, r.WrapTargets)
 	default:
 		if r.Inner != nil {
 			out, err = r.Inner.Put(m, topics)
@@ -130,7 +133,7 @@ func (r *RecReplayer) Replay(sub sse.Subscription) error {
 		r.append(e)
 		panic(&InjectedError{Where: "replay-panic", N: n})
 	case "err":
-		err = &InjectedError{Where: "replay", N: n}
+		err = NewInjected("replay", n, r.ErrKind, r.WrapTargets)
 	default:
 		if r.Inner != nil {
 			err = r.Inner.Replay(sub)
